@@ -301,7 +301,8 @@ fn eval_quantity(
                     let value = value
                         .to_int()
                         .ok_or_else(|| "RHS of `^` is too big".to_string())?;
-                    Ok(left.pow(value))
+                    left.checked_pow(value)
+                        .ok_or_else(|| "RHS of `^` is too big".to_string())
                 }
                 Expr::UnaryOp(UnaryOpExpr {
                     op: UnaryOpType::Negative,
@@ -311,7 +312,8 @@ fn eval_quantity(
                         let value = -value
                             .to_int()
                             .ok_or_else(|| "RHS of `^` is too big".to_string())?;
-                        Ok(left.pow(value))
+                        left.checked_pow(value)
+                            .ok_or_else(|| "RHS of `^` is too big".to_string())
                     } else {
                         Err(format!("RHS of `^` must be a constant: {expr}"))
                     }
